@@ -48,12 +48,23 @@ pub struct Call {
     pub clock: u64,
 }
 
+fn flaky_bit(k: u64, idx: u64) -> bool {
+    let mut x = k.wrapping_mul(0x9E37_79B9_7F4A_7C15) ^ idx.wrapping_mul(0xC2B2_AE3D_27D4_EB4F);
+    x ^= x >> 29;
+    x = x.wrapping_mul(0xBF58_476D_1CE4_E5B9);
+    x ^= x >> 32;
+    x & 1 == 1
+}
+
 #[derive(Clone, Debug, Default)]
 pub struct FaultPlan {
     /// fail exactly these call indices
     pub fail_at: Vec<u64>,
     /// fail this call index and every later one
     pub fail_from: Option<u64>,
+    /// fail this call index, and each later one with probability 1/2 (a pure function of the
+    /// two indices: no PRNG state involved)
+    pub flaky_from: Option<u64>,
     /// every flush takes this much simulated time
     pub slow_flush_ns: u64,
     /// error kind rotation seed
@@ -442,7 +453,9 @@ impl SimTerm {
             let mut s = self.lock();
             let idx = s.n_calls;
             s.n_calls += 1;
-            let failed = s.fault.fail_at.contains(&idx) || s.fault.fail_from.map_or(false, |k| idx >= k);
+            let failed = s.fault.fail_at.contains(&idx)
+                || s.fault.fail_from.map_or(false, |k| idx >= k)
+                || s.fault.flaky_from.map_or(false, |k| idx == k || (idx > k && flaky_bit(k, idx)));
             let tid = verif_simrt::sched::tid().unwrap_or(usize::MAX);
             let mut h = s.calls_hash;
             for x in [kind.code(), failed as u64, tid as u64] {
